@@ -277,7 +277,7 @@ func drawShape(w *simrt.Tape, allowZero bool) []int {
 	rank := 1 + w.Choose(3)
 	s := make([]int, rank)
 	for d := range s {
-		s[d] = 1 + w.Choose(6)
+		s[d] = sizeDraw(w, 6, 19)
 		if allowZero && w.Choose(40) == 39 {
 			s[d] = 0
 		}
